@@ -79,6 +79,9 @@ def candidate_names():
             # followed / preceded by other characters is not a match of that pattern
             lit = pat.replace("*", "")
             names.update({f"pre_{lit}", f"{lit}_post", f"pre_{lit}.xyz", f"pre_{lit}_post", f"a{pat.replace('*', 'b')}c"})
+    # the NAME of a format module is not a pattern: 'calc.gamess', 'geom.poscar' match nothing unless a pattern says so
+    for mname in mods:
+        names.update({f"calc.{mname}", mname, f"{mname}.dat2"})
     names |= {"x.cp2k.out", "FCIDUMP.molden", "POSCAR.xyz", "x.molden.input", "a.fchk.xyz", "CHGCAR.cube", "LOCPOT", "POSCAR",
               "noextension", "x.unknown_ext", "x.json", ".xyz", "xyz", "x.XYZ", "x.Fchk", "molecule.wfn.wfx", "AECCAR0", "x.log.gro",
               "x.pdb.sdf.mol2", "weird name.xyz", "x.xyz ", "FCIDUMP", "a.fcidump.dat"}
